@@ -67,7 +67,6 @@ def run(ctx):
             good = names.count('SecretKey::public_key') == 1 and names.count('SecretKey::diffie_hellman') == 1 and len(names) == 2
             n_paths += int(good)
             rep.ob('R18.1', 'ServerLogin::start Ok path: public_key once, diffie_hellman once, nothing else on the external key', good, str(names), w, sn)
-            key = ('fld', ('fld', Sym('setup'), 'keypair'), 'sk')
             rep.ob('R18.1', "the calls are made on the setup's key", all(is_whole_field_of(e[2][0], Sym('setup')) for _, e in calls), '', w, sn)
             oks = [e for e in p.events if e[0] == 'outcome' and e[1][0] == 'app' and e[1][1] in SK_CALLS]
             rep.ob('R18.2', 'Ok path passed the Ok outcome of both external-key calls', len(oks) == 2 and all(e[2] == 'Ok' for e in oks), str([(e[1][1], e[2]) for e in oks]), w, sn)
